@@ -1,7 +1,7 @@
 """C13 — prayer times vary smoothly from one day to the next (engine M; partial: no calendar- or wrap-induced jumps)."""
 import datetime
 from ..common import *
-from ..obl import base, jd, transit
+from ..obl import base, jd, transit, wiring
 from .. import replay
 from . import c01
 
@@ -38,7 +38,7 @@ def run(rep):
     rep.bounds = {"dates": "every consecutive pair 1583..9999", "RA triple": "as in C01", "tolerance": "Dhuhr within 10 s of the interpolated transit"}
     rep.assumptions += ["the 5/8/12 s second-difference bounds and the 4 min/day bound for the trig-defined times depend on the curvature of "
                         "the real ephemeris (EPH smoothness) and are outside the claim; the claim is the absence of calendar/wrap-induced jumps"]
-    results = base.run_obligations(rep, [(jd.jd_gmt_shift, None), (jd.jd_formula, (1583, 9999)), (transit.ra_deltas, None), (transit.dhuhr_transit, None)])
+    results = base.run_obligations(rep, [(jd.jd_gmt_shift, None), (jd.jd_formula, (1583, 9999)), (transit.ra_deltas, None), (transit.dhuhr_transit, None), (wiring.astro_day_wiring, None)])
     if any(x["cands"] for x in results):
         found = {}
         for key, desc, case, obs in second_diffs():
@@ -49,6 +49,8 @@ def run(rep):
             c01.confirm_jd(rep, results)
         if not found and not rep.violations:
             c01.confirm(rep, [x for x in results if not x["name"].startswith("JulianDay")])
+    from . import policyprop as _pp
+    _pp.purity_native(rep)
     rep.samples = [{"obligation": o["name"], "status": o["status"], "paths": o.get("paths")} for o in rep.obligations]
 
 
